@@ -375,6 +375,20 @@ const c20Drain = "zpzpzpzzzzz"
 // c20RunSet: forks=true mines every prime block of the drain as two siblings (see scen.forkPrimes):
 // the conversions are then repriced by prime once for each sibling.
 func c20RunSet(set []c20Conv, forks bool) (string, string, string) {
+	return c20RunSetP(set, forks, 0)
+}
+
+// c20RunSetP: pressure > 0 puts that many large Quai->Qi conversions through as many earlier prime
+// periods before the set under test is injected, so that the controller's exchange rate / discount
+// is not the genesis one when the set is repriced (the pressure conversions are monitored too).
+func c20RunSetP(set []c20Conv, forks bool, pressure int) (string, string, string) {
+	if pressure > 0 {
+		// the exchange-rate controller computes a new rate only after the protocol's first year (or
+		// when the governance key unfreezes it): end that year after four blocks for this variant
+		saved := params.BlocksPerYear
+		params.BlocksPerYear = 4
+		defer func() { params.BlocksPerYear = saved }()
+	}
 	s, err := newScen(3, false, nil)
 	if err != nil {
 		return "harness", err.Error(), ""
@@ -390,6 +404,19 @@ func c20RunSet(set []c20Conv, forks bool) (string, string, string) {
 		return "harness", "prefix: " + err.Error(), ""
 	}
 	startBlocks := len(s.blocks)
+	rate0 := new(big.Int).Set(s.n.Heads[0].ExchangeRate())
+	for r := 0; r < pressure; r++ {
+		tx := c20Inject(s, c20Conv{"quai->qi", len(c20QuaiAmounts) - 1, 0, 1}, 0)
+		if tx == nil {
+			return "harness", "pressure conversion not applicable", ""
+		}
+		if errs := s.n.AddTxs(tx); errs[0] != nil {
+			return "harness", "pressure conversion refused by the pool: " + errs[0].Error(), ""
+		}
+		if err := s.runWord("zzp"); err != nil {
+			return "harness", "pressure round: " + err.Error(), ""
+		}
+	}
 	var nq, nqi uint64
 	admitted := 0
 	factoryCalls := 0
@@ -551,6 +578,15 @@ func c20RunSet(set []c20Conv, forks bool) (string, string, string) {
 	}
 	if len(cls) == 0 {
 		cls = []string{fmt.Sprintf("none(admitted=%d)", admitted)}
+	}
+	if pressure > 0 {
+		moved := "rate-unchanged"
+		if c := s.n.Heads[0].ExchangeRate().Cmp(rate0); c > 0 {
+			moved = "rate-rose"
+		} else if c < 0 {
+			moved = "rate-fell"
+		}
+		return "", "", strings.Join(cls, "+") + "/" + moved
 	}
 	return "", "", strings.Join(cls, "+")
 }
@@ -714,7 +750,7 @@ func c20Pipeline(c *vx.Ctx) {
 	}
 	p.Bound("conversions_per_prime_block", maxN)
 	p.Bound("menu", len(c20Menu()))
-	p.Bound("variants", "plain drain; drain in which every prime block is mined as two siblings (head P1, then P2)")
+	p.Bound("variants", "plain drain; drain in which every prime block is mined as two siblings (head P1, then P2); set injected after two prime periods that each confirmed a large Quai->Qi conversion (exchange-rate trajectory; quick: single conversions)")
 	if c.Shard == 0 {
 		p.States = int64(len(sets))
 	}
@@ -727,10 +763,17 @@ func c20Pipeline(c *vx.Ctx) {
 			return
 		}
 		plainKey := ""
-		for _, forks := range []bool{false, true} {
+		for vi, forks := range []bool{false, true, false} {
 			forks := forks
+			pressure := 0
+			if vi == 2 {
+				pressure = 2
+				if len(set) > 1 && !c.Thorough() {
+					continue // quick: the trajectory variant runs on the single conversions
+				}
+			}
 			var key, desc, cls string
-			if perr := vx.Guard(func() { key, desc, cls = c20RunSet(set, forks) }); perr != "" {
+			if perr := vx.Guard(func() { key, desc, cls = c20RunSetP(set, forks, pressure) }); perr != "" {
 				key, desc = "panic:"+vx.PanicSite(perr), fmt.Sprintf("set %v: %s", set, perr)
 			}
 			if key == "harness" {
@@ -743,7 +786,10 @@ func c20Pipeline(c *vx.Ctx) {
 			if forks {
 				tag = "sibling-primes:"
 			}
-			if !forks {
+			if pressure > 0 {
+				tag = "after-pressure:"
+			}
+			if !forks && pressure == 0 {
 				plainKey = key
 			} else if key != "" && key == plainKey {
 				// the same failure as without the sibling blocks: one finding, reported above
@@ -756,17 +802,20 @@ func c20Pipeline(c *vx.Ctx) {
 				if forks {
 					desc = "every prime block of the drain mined as two siblings (head P1, then switch to P2): " + desc
 				}
+				if pressure > 0 {
+					desc = fmt.Sprintf("after %d prime periods with a large Quai->Qi conversion each: %s", pressure, desc)
+				}
 				if c.Confirm(desc, func() string {
 					var k string
-					vx.Guard(func() { k, _, _ = c20RunSet(set, forks) })
+					vx.Guard(func() { k, _, _ = c20RunSetP(set, forks, pressure) })
 					return k
 				}) {
-					c.Violate("pipeline", "pipeline:"+tag+key, desc, map[string]any{"set": set, "sibling_primes": forks})
+					c.Violate("pipeline", "pipeline:"+tag+key, desc, map[string]any{"set": set, "sibling_primes": forks, "pressure": pressure})
 				}
 				continue
 			}
 			p.Outcome(tag + cls)
-			if i%9 == 0 && !forks {
+			if i%9 == 0 && !forks && pressure == 0 {
 				p.Sample(map[string]any{"set": fmt.Sprint(set), "outcomes": cls})
 			}
 		}
@@ -794,8 +843,9 @@ func replayC20(c *vx.Ctx, v vx.Violation) string {
 	raw, _ := jsonMarshal(v.Replay)
 	var set []c20Conv
 	var rp struct {
-		Set   []c20Conv `json:"set"`
-		Forks bool      `json:"sibling_primes"`
+		Set      []c20Conv `json:"set"`
+		Forks    bool      `json:"sibling_primes"`
+		Pressure int       `json:"pressure"`
 	}
 	if err := jsonUnmarshal(raw, &set); err != nil {
 		if err := jsonUnmarshal(raw, &rp); err != nil {
@@ -803,6 +853,6 @@ func replayC20(c *vx.Ctx, v vx.Violation) string {
 		}
 		set = rp.Set
 	}
-	_, d, _ := c20RunSet(set, rp.Forks)
+	_, d, _ := c20RunSetP(set, rp.Forks, rp.Pressure)
 	return d
 }
